@@ -252,13 +252,19 @@ def shards(tier):
     parts = 2 if quick else 16
     for p in range(parts):
         out.append({'mode': 'enumerate', 'maxlen': 2 if quick else 3, 'part': p, 'parts': parts})
-    for mode, n, ex in (('alone', 3, 1000), ('position', 9, 1200), ('cond', 2, 800)):
+    out.append({'mode': 'manycaps'})
+    for mode, n, ex in (('alone', 3, 1000), ('position', 8, 1200), ('cond', 2, 800)):
         for i in range(n if quick else n * 3):
             out.append({'mode': mode, 'examples': ex if quick else ex * 8, 'max_leaves': 3 + i % 3})
     return out
 
 
 def run_shard(spec, ctx):
+    if spec['mode'] == 'manycaps':
+        from pbt.props.c02 import manycaps_cases
+        run_enumeration(ctx, (dict(c, mode='position') for c in manycaps_cases()), check_case,
+                        'a digit-leading str after a two-digit backreference (10-13 groups)')
+        return
     if spec['mode'] == 'enumerate':
         run_enumeration(ctx, enumerated(spec['maxlen'], spec['part'], spec['parts']), check_case,
                         f"all strings of length <= {spec['maxlen']} over the 36-character alphabet, used alone")
